@@ -120,7 +120,7 @@ def gen_cfg(rs, lp_kind, np_kind, labels="int", n_arms=None, deterministic=False
     arms = list(LABELS[labels][:n_arms])
     # hostile reward magnitudes: one class per configuration, never for linear policies (their comparisons carry a relative
     # tolerance that assumes rewards of order one)
-    stress = int(rs.integers(5)) if (rs.integers(8) == 0 and lp_kind not in LIN_KINDS) else None
+    stress = int(pick(rs, [0, 1, 2, 3, 4, 5])) if (rs.integers(5) == 0 and lp_kind not in LIN_KINDS) else None
     return {"arms": arms, "labels": labels, "reward_stress": stress,
             "lp": gen_lp(rs, lp_kind, deterministic, binarizer),
             "np": gen_np(rs, np_kind, n_arms, with_probs),
@@ -215,13 +215,13 @@ def cfg_sig(cfg):
 # ------------------------------------------------------------------------------------------------- data
 def gen_rewards(rs, n, kind, stress=None):
     """stress: None or 0..4 - one hostile magnitude class for the WHOLE history (mixing magnitudes inside one history would
-    make the sums inexact and 'bit-for-bit' meaningless): x 2^20, x 2^-20, x 2^40, x 2^-40, or + 2^33 (near-equal values)"""
+    make the sums inexact and 'bit-for-bit' meaningless): x 2^20, x 2^-20, x 2^40, x 2^-40, + 2^33 (near-equal values), -(2^33 + v)"""
     if kind in ("nonneg", "dyadic") and stress is not None:
         mode = int(stress)
         base = gen_rewards(rs, n, kind)
-        if mode == 4:
-            # near-equal but different values: a large offset plus a small exactly representable part
-            return [2.0 ** 33 + v for v in base] if kind == "nonneg" else [(2.0 ** 33 + v) * (-1.0 if rs.integers(2) else 1.0) for v in base]
+        if mode >= 4:
+            # near-equal but different values: a large offset plus a small exactly representable part (mode 5: negated)
+            return [2.0 ** 33 + v for v in base] if (kind == "nonneg" or mode == 4) else [-(2.0 ** 33 + v) for v in base]
         scale = float([2.0 ** 20, 2.0 ** -20, 2.0 ** 40, 2.0 ** -40][mode])
         return [v * scale for v in base]
     if kind == "binary":
